@@ -547,3 +547,235 @@ theorem topNames_frame : ∀ (pre : List RK) (d : Nat) (r r' : RK) (post : List 
     cases x <;> simp only [List.cons_append, topNames, ih _ r r' post hs]
 
 end Pyxv.Binds
+
+namespace Pyxv.Binds
+open Pyxv
+
+/-! ### lemmas for the `bind::x` / `bind:x` spellings -/
+
+theorem mem_splitWsAux (c : Char) (hc : pyIsSpace c = false) :
+    ∀ (s cur : Str), (c ∈ cur ∨ c ∈ s) → ∃ w ∈ splitWsAux cur s, c ∈ w := by
+  intro s
+  induction s with
+  | nil =>
+    intro cur h
+    have hm : c ∈ cur := by rcases h with h | h; exact h; cases h
+    unfold splitWsAux
+    cases cur with
+    | nil => cases hm
+    | cons x xs => exact ⟨(x :: xs).reverse, by simp, List.mem_reverse.mpr hm⟩
+  | cons d ds ih =>
+    intro cur h
+    unfold splitWsAux
+    by_cases hd : pyIsSpace d = true
+    · have hne : c ≠ d := by intro e; subst e; rw [hd] at hc; cases hc
+      rw [if_pos hd]
+      cases cur with
+      | nil =>
+        simp only [List.isEmpty_nil, if_true]
+        apply ih []
+        rcases h with h | h
+        · cases h
+        · rcases List.mem_cons.mp h with h | h
+          · exact absurd h hne
+          · exact Or.inr h
+      | cons x xs =>
+        simp only [List.isEmpty_cons, Bool.false_eq_true, if_false]
+        rcases h with h | h
+        · exact ⟨(x :: xs).reverse, List.mem_cons_self .., List.mem_reverse.mpr h⟩
+        · rcases List.mem_cons.mp h with h | h
+          · exact absurd h hne
+          · obtain ⟨w, hw, hcw⟩ := ih [] (Or.inr h)
+            exact ⟨w, List.mem_cons_of_mem _ hw, hcw⟩
+    · rw [if_neg hd]
+      apply ih (d :: cur)
+      rcases h with h | h
+      · exact Or.inl (List.mem_cons_of_mem _ h)
+      · rcases List.mem_cons.mp h with h | h
+        · exact Or.inl (by rw [h]; exact List.mem_cons_self ..)
+        · exact Or.inr h
+
+theorem mem_joinWith (sep : Str) (c : Char) : ∀ (l : List Str) (w : Str), w ∈ l → c ∈ w → c ∈ joinWith sep l := by
+  intro l
+  induction l with
+  | nil => intro w h; cases h
+  | cons x rest ih =>
+    intro w hw hc
+    cases rest with
+    | nil =>
+      simp only [List.mem_singleton] at hw
+      subst hw
+      simpa [joinWith] using hc
+    | cons y r2 =>
+      unfold joinWith
+      rcases List.mem_cons.mp hw with h | h
+      · subst h; simp [hc]
+      · have := ih w h hc
+        simp [this]
+
+/-- a character that is neither whitespace nor an ASCII capital survives `to_snake_case` -/
+theorem mem_toSnakeCase (c : Char) (h : Str) (hm : c ∈ h) (hs : pyIsSpace c = false)
+    (hu : ¬ ('A' ≤ c ∧ c ≤ 'Z')) : c ∈ toSnakeCase h := by
+  unfold toSnakeCase lowerAscii
+  obtain ⟨w, hw, hcw⟩ := mem_splitWsAux c hs h [] (Or.inr hm)
+  have := mem_joinWith ['_'] c (splitWs h) w hw hcw
+  exact List.mem_map.mpr ⟨c, this, by simp [hu]⟩
+
+theorem splitOn2_cons2 (d c1 c2 : Char) (cs : Str) :
+    splitOn2 d (c1 :: c2 :: cs) =
+      if c1 = d ∧ c2 = d then [] :: splitOn2 d cs
+      else match splitOn2 d (c2 :: cs) with
+        | [] => [[c1]]
+        | f :: fs => (c1 :: f) :: fs := by
+  first
+    | exact splitOn2.eq_3 d c1 c2 cs
+    | (rw [splitOn2]; split <;> rfl)
+
+theorem splitOn2_of_noDouble : ∀ (a : Str), isInfix "::".toList a = false → splitOn2 ':' a = [a] := by
+  intro a
+  induction a with
+  | nil => intro _; rfl
+  | cons c1 t ih =>
+    intro h
+    cases t with
+    | nil => rfl
+    | cons c2 cs =>
+      unfold isInfix at h
+      have h1 : startsWith (c1 :: c2 :: cs) "::".toList = false := by
+        cases hs : startsWith (c1 :: c2 :: cs) "::".toList with
+        | false => rfl
+        | true => rw [hs] at h; cases h
+      have h2 : isInfix "::".toList (c2 :: cs) = false := by
+        cases hs : isInfix "::".toList (c2 :: cs) with
+        | false => rfl
+        | true => rw [hs, Bool.or_true] at h; cases h
+      have hne : ¬ (c1 = ':' ∧ c2 = ':') := by
+        intro ⟨e1, e2⟩
+        subst e1 e2
+        simp [startsWith] at h1
+      unfold splitOn2
+      rw [if_neg hne, ih h2]
+
+theorem splitOn2_prefix (a : Str) : ∀ (pre : Str), (∀ c ∈ pre, c ≠ ':') →
+    splitOn2 ':' (pre ++ ':' :: ':' :: a) = pre :: splitOn2 ':' a := by
+  intro pre
+  induction pre with
+  | nil => intro _; simp only [List.nil_append]; rw [splitOn2_cons2]; simp
+  | cons c p ih =>
+    intro hc
+    have h1 : c ≠ ':' := hc c (List.mem_cons_self ..)
+    have ihp := ih (fun x hx => hc x (List.mem_cons_of_mem _ hx))
+    cases p with
+    | nil =>
+      simp only [List.cons_append, List.nil_append] at ihp ⊢
+      rw [splitOn2_cons2, if_neg (fun h => h1 h.1), ihp]
+    | cons c2 p2 =>
+      simp only [List.cons_append] at ihp ⊢
+      rw [splitOn2_cons2, if_neg (fun h => h1 h.1), ihp]
+
+theorem isInfix_dcolon_prefix (a : Str) : ∀ (pre : Str), isInfix "::".toList (pre ++ ':' :: ':' :: a) = true := by
+  intro pre
+  induction pre with
+  | nil => simp only [List.nil_append]; unfold isInfix; simp [startsWith]
+  | cons c p ih => simp only [List.cons_append]; unfold isInfix; rw [ih]; exact Bool.or_true _
+
+theorem isInfix_dcolon_single (a : Str) (ha : ∀ c ∈ a, c ≠ ':') : ∀ (pre : Str), (∀ c ∈ pre, c ≠ ':') →
+    isInfix "::".toList (pre ++ ':' :: a) = false := by
+  intro pre
+  induction pre with
+  | nil =>
+    intro _
+    simp only [List.nil_append]
+    unfold isInfix
+    rw [isInfix_dcolon_none a ha, Bool.or_false]
+    cases a with
+    | nil => simp [startsWith]
+    | cons x xs =>
+      have : x ≠ ':' := ha x (List.mem_cons_self ..)
+      simp [startsWith, this]
+  | cons c p ih =>
+    intro hc
+    have h1 : c ≠ ':' := hc c (List.mem_cons_self ..)
+    simp only [List.cons_append]
+    unfold isInfix
+    rw [ih (fun x hx => hc x (List.mem_cons_of_mem _ hx)), Bool.or_false]
+    show startsWith (c :: (p ++ ':' :: a)) [':', ':'] = false
+    unfold startsWith
+    simp [h1]
+
+theorem splitOnChar_prefix (a : Str) (ha : ∀ c ∈ a, c ≠ ':') : ∀ (pre : Str), (∀ c ∈ pre, c ≠ ':') →
+    splitOnChar ':' (pre ++ ':' :: a) = [pre, a] := by
+  intro pre
+  induction pre with
+  | nil =>
+    intro _
+    simp only [List.nil_append]
+    unfold splitOnChar
+    rw [splitOnChar_none ':' a ha]
+    simp
+  | cons c p ih =>
+    intro hc
+    have h1 : c ≠ ':' := hc c (List.mem_cons_self ..)
+    simp only [List.cons_append]
+    unfold splitOnChar
+    rw [ih (fun x hx => hc x (List.mem_cons_of_mem _ hx))]
+    simp [h1]
+
+end Pyxv.Binds
+
+namespace Pyxv.Binds
+open Pyxv
+
+/-! ### the row loop is a fold whose only carried state is the row number and `table_list` -/
+
+theorem processRows_frame (dl : Str) (key : List (Str × List Str)) (lists : List Str) :
+    ∀ (pre : List (List (Str × Str))) (n : Nat) (tl : TL) (c : List (Str × Str)) (post : List (List (Str × Str)))
+      (ks : List RK), processRows dl key lists n tl (pre ++ c :: post) = .ok ks →
+    ∃ kpre kc kpost tl1 tl2, rowRKs dl key lists (n + pre.length) tl1 c = .ok (kc, tl2) ∧
+      ks = kpre ++ kc ++ kpost ∧
+      ∀ c' kc', rowRKs dl key lists (n + pre.length) tl1 c' = .ok (kc', tl2) →
+        processRows dl key lists n tl (pre ++ c' :: post) = .ok (kpre ++ kc' ++ kpost) := by
+  intro pre
+  induction pre with
+  | nil =>
+    intro n tl c post ks h
+    simp only [List.nil_append] at h
+    unfold processRows at h
+    split at h
+    · cases h
+    · next kc tl2 hc =>
+      split at h
+      · next kpost hp =>
+        simp only [Except.ok.injEq] at h
+        refine ⟨[], kc, kpost, tl, tl2, by simpa using hc, by simp [h], ?_⟩
+        intro c' kc' hc'
+        simp only [List.length_nil, Nat.add_zero] at hc'
+        simp only [List.nil_append]
+        unfold processRows
+        rw [hc']
+        simp only [hp]
+      · cases h
+  | cons x pre ih =>
+    intro n tl c post ks h
+    simp only [List.cons_append] at h
+    unfold processRows at h
+    split at h
+    · cases h
+    · next kx tlx hx =>
+      split at h
+      · next ks1 h1 =>
+        simp only [Except.ok.injEq] at h
+        obtain ⟨kpre, kc, kpost, tl1, tl2, hc, hk, hall⟩ := ih (n + 1) tlx c post ks1 h1
+        have e : n + 1 + pre.length = n + (x :: pre).length := by simp only [List.length_cons]; omega
+        rw [e] at hc
+        refine ⟨kx ++ kpre, kc, kpost, tl1, tl2, hc, by rw [← h, hk]; simp, ?_⟩
+        intro c' kc' hc'
+        rw [← e] at hc'
+        have := hall c' kc' hc'
+        simp only [List.cons_append]
+        unfold processRows
+        rw [hx]
+        simp only [this, List.append_assoc]
+      · cases h
+
+end Pyxv.Binds
